@@ -54,7 +54,7 @@ type Options struct {
 func Default(repo, vschedSrc, out string) Options {
 	return Options{
 		Repo: repo, VschedSrc: vschedSrc, OutDir: out,
-		SyncFiles:    []string{"runtime/thread.go", "runtime/internal/luagc/clonepool.go", "runtime/internal/luagc/unsafepool.go"},
+		SyncFiles:    []string{"runtime/thread.go", "runtime/internal/luagc/clonepool.go", "runtime/internal/luagc/unsafepool.go", "lib/base/collectgarbage.go"},
 		ThreadFields: []string{"status", "caller", "closeErr", "currentCont"},
 		CtxFile:      "runtime/runtimecontextmanager.go",
 		ClockFile:    "runtime/runtimecontextmanager.go",
